@@ -1451,6 +1451,93 @@ theorem tameP_spec {env : List Entry} {l out : List PTok} (h : TameP env l out) 
             simpa [List.getD, hla'] using this
 
 
+/-! ## `Tame` is the part of `TameP` without `##` -/
+
+theorem tame_firstTok {env : List Entry} {l out : List PTok} (h : Tame env l out) : firstTok l ≠ some .concat := by
+  induction h with
+  | nil => simp [firstTok]
+  | keep env t rest out hk _ ih =>
+    by_cases hw : t.tok.isWhitespace = true
+    · simp only [firstTok, hw, if_true]; exact ih
+    · simp only [firstTok, hw]
+      intro hh
+      simp only [Bool.false_eq_true, if_false, Option.some.injEq] at hh
+      exact hk.1 hh
+  | invoke => simp [firstTok, Tok.isWhitespace]
+
+theorem tame_noConcat {env : List Entry} {l out : List PTok} (h : Tame env l out) : NoConcat l := by
+  induction h with
+  | nil => exact fun t ht => (by cases ht)
+  | keep env t rest out hk _ ih =>
+    intro x hx
+    rcases List.mem_cons.mp hx with rfl | hx
+    · exact hk.1
+    · exact ih x hx
+  | invoke env n b rest mi e rest' args args' body' R out _ hra hlen _ _ _ _ _ _ ihargs _ ihrest =>
+    have hncargs : ∀ a ∈ args, NoConcat a := by
+      intro a ha
+      obtain ⟨i, hi⟩ := List.mem_iff_getElem?.mp ha
+      have hlt : i < args'.length := by rw [hlen]; exact (List.getElem?_eq_some_iff.mp hi).1
+      exact ihargs i a args'[i] hi (List.getElem?_eq_getElem hlt)
+    obtain ⟨mid, hmid, hncm, _, _⟩ := readArgs_region e.m rest rest' args hra hncargs
+    intro x hx
+    rcases List.mem_cons.mp hx with rfl | hx
+    · simp
+    · rw [hmid] at hx
+      rcases List.mem_append.mp hx with h | h
+      · exact hncm x h
+      · exact ihrest x h
+
+theorem pasteParams_noConcat (mb : List PTok) (hnc : NoConcat mb) : ∀ (prev : Option Tok), prev ≠ some .concat →
+    pasteParams prev mb = [] := by
+  induction mb with
+  | nil => intro prev _; rfl
+  | cons t r ih =>
+    intro prev hp
+    have hr : NoConcat r := fun x hx => hnc x (by simp [hx])
+    have hnext : (if t.tok.isWhitespace = true then prev else some t.tok) ≠ some .concat := by
+      split
+      · exact hp
+      · intro hh; simp only [Option.some.injEq] at hh; exact hnc t (by simp) hh
+    have hft : firstTok r ≠ some .concat := by
+      intro hh
+      obtain ⟨x, hx, hxk⟩ := firstTok_mem hh
+      exact hr x hx hxk
+    rw [pasteParams]
+    simp only [ih hr _ hnext]
+    split
+    · have h1 : (prev == some Tok.concat) = false := by simpa using hp
+      have h2 : (firstTok r == some Tok.concat) = false := by simpa using hft
+      simp [h1, h2]
+    · rfl
+
+/-- every `Tame` derivation (tables whose replacement lists contain no `##`) is a `TameP` derivation: so
+`expand_refines_spec` is the special case of `expand_refines_spec_with_paste` without `##` -/
+theorem tame_to_tameP {env : List Entry} {l out : List PTok} (h : Tame env l out) :
+    (∀ e ∈ env, NoConcat e.m.body) → TameP env l out := by
+  induction h with
+  | nil env => intro _; exact TameP.nil env
+  | keep env t rest out hk hrest ih =>
+    intro hb
+    exact TameP.keep env t rest out hk (Or.inr (splitPaste_none_of_firstTok rest (tame_firstTok hrest))) (ih hb)
+  | invoke env n b rest mi e rest' args args' body' R out hsel hra hlen hargs hod hsub _ hnf _ ihargs ihbody ihrest =>
+    intro hb
+    have hncargs : ∀ a ∈ args, NoConcat a := by
+      intro a ha
+      obtain ⟨i, hi⟩ := List.mem_iff_getElem?.mp ha
+      have hlt : i < args'.length := by rw [hlen]; exact (List.getElem?_eq_some_iff.mp hi).1
+      exact tame_noConcat (hargs i a args'[i] hi (List.getElem?_eq_getElem hlt))
+    have hbd : ∀ e' ∈ disable env mi, NoConcat e'.m.body := by
+      intro e' he'
+      obtain ⟨e0, he0, hm, _⟩ := mem_disable he'
+      rw [hm]; exact hb e0 he0
+    refine TameP.invoke env n b rest mi e rest' args args' body' R out hsel hra hncargs ?_ hlen
+      (fun i a a' ha ha' => ihargs i a a' ha ha' hb) hod hsub (ihbody hbd) hnf (ihrest hb)
+    intro i hi
+    rw [pasteParams_noConcat e.m.body (hb e (List.mem_of_getElem? hsel.get)) none (by simp)] at hi
+    cases hi
+
+
 /-! ## `WFMacroP`, decided -/
 
 theorem wfMacroP_of_wfPB (m : Macro) (h : wfPB m = true) : WFMacroP m := by
